@@ -27,12 +27,45 @@ def fval(x):
     return x * x + 3 * x + 7
 
 
-def expected_outcome(batch, x, m):
-    """what evaluating one input of an smap batch gives (independent of the implementation)"""
+N_UNUSUAL = 20     # len(c14_impl.UNUSUAL): 0, 0.0, -0.0, False, None, '', [], (), {}, numpy scalars, 0-d / 1-element arrays, nan, ...
+N_EXC = 8          # c14_impl.make_exc: ValueError(), KeyError(0), NumberedError, ZeroDivisionError, OSError(0,''), FalsyError, ...
+N_SCALARS = 12     # len(c14_impl.SCALARS)
+
+
+def value_of(x, m):
+    """outcome of evaluating (x, mode): mode 0 value, 1 WorkError(x), 2 an unusual but legal value (code -(1+u)),
+    3 an exception of user code of an unusual kind (code -(100+k))"""
     if m == 1:
         return ["exc", x]
+    if m == 2:
+        return ["ok", -(1 + x % N_UNUSUAL)]
+    if m == 3:
+        return ["exc", -(100 + x % N_EXC)]
+    return ["ok", fval(x)]
+
+
+# kinds of callables (c14_impl.make_callable): what the serial loop gives for mode 0
+FKINDS = {"fitness": 0, "emcee_wrap": 0, "dynesty_ll": 0, "dynesty_pt": 1000000, "dynesty_other": 4000000, "partial": 2000000,
+          "object": 3000000, "plain": 1000000}
+AKINDS = ["fitness", "emcee_wrap", "dynesty_ll", "arg_dynesty_pt", "arg_partial", "object"]
+
+
+def akind_value(kind, x):
+    """what calling the callable ARGUMENT on [-1, x, 0] gives"""
+    return {"fitness": fval(x), "emcee_wrap": fval(x), "dynesty_ll": fval(x), "arg_dynesty_pt": 3 * x + 1,
+            "arg_partial": fval(x) + 5, "object": fval(x) + 3000000}[kind]
+
+
+def expected_outcome(batch, x, m):
+    """what evaluating one input of an smap batch gives (independent of the implementation)"""
+    if batch.get("fkind") and m == 0:
+        return ["ok", fval(x) + FKINDS[batch["fkind"]]]
+    if batch.get("akind") and m == 0:
+        return ["ok", 10 * akind_value(batch["akind"], x) + batch["apos"]]
     if batch.get("scalar"):
-        return ["ok", fval(x)]
+        return ["ok", fval(x) if x < 100 else 500000 + (x - 100)]
+    if m in (1, 2, 3):
+        return value_of(x, m)
     if batch.get("fitpos") is not None:
         return ["ok", fval(x) * 100 + 10 + batch["fitpos"]]
     return ["ok", fval(x)]
@@ -108,6 +141,110 @@ def gen_smap(rng, thorough):
     return {"kind": "smap", "procs": procs, "batches": batches}
 
 
+class Cycle:
+    """hands out 0, 1, 2, ... so that a run covers every unusual value / exception kind / scalar BY CONSTRUCTION"""
+
+    def __init__(self, rng):
+        self.u, self.k, self.s = rng.randrange(N_UNUSUAL), rng.randrange(N_EXC), rng.randrange(N_SCALARS)
+
+    def unusual(self):
+        self.u += 1
+        return self.u
+
+    def exc(self):
+        self.k += 1
+        return self.k
+
+    def scalar(self):
+        self.s += 1
+        return 100 + self.s % N_SCALARS
+
+
+def sched_for(rng, size, procs):
+    counts = [len([i for i in range(size) if i % procs == w]) for w in range(procs)]
+    order = completion_order(rng, counts, rng.choice(["reverse", "slow-first", "burst", "random", "random"]))
+    return interleave_polls(rng, [["F", w] for w in order], procs, rng.choice(["late-main", "eager-main", "mixed"]))
+
+
+def gen_smap_vals(rng, cyc):
+    """one pool, a HISTORY of three batches: unusual results (falsy, None, numpy, nan ...) mixed with ordinary ones; a
+    batch in which user code raises exceptions of unusual kinds (no args, falsy, carrying `number`/`result`); then a clean
+    batch of plain scalars of several types on the same pool -- nothing of the failed batch may show up in it"""
+    procs = rng.choice([2, 2, 3, 4])
+    batches = []
+    size = rng.choice([3, 4, 5, 6])
+    jobs = [[cyc.unusual(), 2] if rng.random() < 0.7 else [rng.randrange(40), 0] for _ in range(size)]
+    jobs[rng.randrange(size)] = [cyc.unusual(), 2]
+    batches.append({"jobs": jobs, "sched": sched_for(rng, size, procs)})
+    size = rng.choice([2, 3, 4, 5])
+    jobs = [[rng.randrange(40), 0] for _ in range(size)]
+    for pos in rng.sample(range(size), rng.choice([1, 1, 2])):
+        jobs[pos] = [cyc.exc(), 3]
+    if rng.random() < 0.3:
+        jobs[rng.randrange(size)] = [rng.randrange(40), 1]
+    b = {"jobs": jobs, "sched": sched_for(rng, size, procs)}
+    if rng.random() < 0.4:
+        b["fitpos"] = rng.choice([0, 1, 2])
+    batches.append(b)
+    size = rng.choice([2, 3, 4])
+    xs = [cyc.scalar() for _ in range(rng.choice([1, 2]))]
+    xs += rng.sample(range(1, 60), size)
+    xs = list(dict.fromkeys(xs))
+    rng.shuffle(xs)
+    batches.append({"jobs": [[x, 0] for x in xs], "scalar": True, "sched": sched_for(rng, len(xs), procs)})
+    if rng.random() < 0.5:
+        batches.reverse()
+    return {"kind": "smap", "procs": procs, "batches": batches, "shape": "values"}
+
+
+def gen_smap_kinds(rng, j):
+    """one pool, a history of maps with DIFFERENT kinds of callables: as the mapped function (the likelihood in its three
+    guises, and callables that are not the likelihood: dynesty-wrapped prior transform, dynesty wrapper of another name,
+    partial, callable object, plain function) and as one of the arguments; case j of a run starts the cycle at kind j, so
+    every kind occurs in every run"""
+    procs = rng.choice([1, 2, 2, 3, 4])
+    fk = sorted(FKINDS)
+    batches = []
+    for t in range(3):
+        size = rng.choice([1, 2, 3, 4, 5])
+        jobs = [[rng.randrange(40), 1 if rng.random() < 0.1 else 0] for _ in range(size)]
+        b = {"jobs": jobs, "sched": sched_for(rng, size, procs)}
+        if t == 1:
+            b["akind"] = AKINDS[j % len(AKINDS)]
+            b["apos"] = rng.choice([0, 1, 2, 3])
+        else:
+            b["fkind"] = fk[(2 * j + (t // 2) * 3) % len(fk)]
+        batches.append(b)
+    rng.shuffle(batches)
+    return {"kind": "smap", "procs": procs, "batches": batches, "shape": "callables"}
+
+
+def gen_numbering(rng):
+    """a history of job constructions: explicit numbers (0 included, out of order, repeated), jobs without a number and
+    SneakyJobs (both draw from the class-level counter)"""
+    specs = []
+    for _ in range(rng.randint(3, 9)):
+        r = rng.random()
+        specs.append(None if r < 0.25 else "sneaky" if r < 0.4 else rng.choice([0, 0, 1, 2, 3, 5, 17]))
+    specs.insert(rng.randrange(1, len(specs) + 1), 0)       # an explicit 0 that is never the first construction
+    if specs[0] == 0:
+        specs[0] = None
+    return {"kind": "numbering", "specs": specs}
+
+
+def gen_jobs_seq(rng, cyc):
+    """a history of 2-3 run_jobs calls in one process: different worker counts, numberings, failing and unusual jobs;
+    jobs without a number are built in between (the class-level counter moves)"""
+    calls = []
+    for j in range(rng.choice([2, 2, 3])):
+        call = gen_jobs_case(rng, False, cyc, force=["perm", "fail", "vals"][j % 3] if rng.random() < 0.8 else None)
+        call.pop("kind")
+        call["draw"] = rng.choice([0, 1, 3]) if j else rng.choice([1, 2])
+        calls.append(call)
+    rng.shuffle(calls)
+    return {"kind": "jobs_seq", "calls": calls}
+
+
 def gen_smap_free(rng):
     procs = rng.choice([1, 2, 3, 4])
     batches = []
@@ -122,10 +259,23 @@ def gen_smap_free(rng):
     return {"kind": "smap_free", "procs": procs, "batches": batches}
 
 
-def gen_init(rng, thorough):
+def gen_init(rng, thorough, again=False, unusual=False):
+    c = gen_init1(rng, thorough, unusual)
+    if again:
+        c["again"] = gen_init1(rng, thorough, unusual)
+        c["again"].pop("kind")
+    return c
+
+
+def gen_init1(rng, thorough, unusual=False):
     n = rng.choice([1, 2, 2, 3, 3, 4])
     total = rng.randint(1, 6)
     vals = rng.sample(range(1, 900), 40)
+    if unusual:
+        # figures of merit that are falsy or negative: 0 (-> 0.0) among the first points drawn, negatives elsewhere
+        total = max(total, 2)
+        vals = [-v if rng.random() < 0.5 else v for v in vals]
+
     stream = []
     valid = 0
     err_p = rng.choice([0, 0, 0, 0.05, 0.15])
@@ -139,6 +289,10 @@ def gen_init(rng, thorough):
         else:
             stream.append(["ok", vals[len(stream)]])
             valid += 1
+    if unusual:
+        first = [i for i, (kd, _) in enumerate(stream) if kd == "ok"]
+        if first:
+            stream[first[0] if len(first) < 2 or rng.random() < 0.5 else first[1]] = ["ok", 0]
     scheds = []
     for _ in range(len(stream)):
         order = list(range(n))
@@ -163,12 +317,22 @@ def gen_emcee(rng):
     return {"kind": "emcee", "procs": procs, "vals": vals, "order": order, "sched": sched}
 
 
-def gen_jobs_case(rng, thorough):
+def gen_jobs_case(rng, thorough, cyc=None, force=None):
     cores = rng.choice([2, 3, 3, 4, 4])
     nw = cores - 1
     size = rng.choice([0, 1, 2, 3, 3, 4, 4, 5, 6, 7, 8])
+    if force:
+        size = max(size, 3)
     fail_p = rng.choice([0, 0, 0, 0.2, 0.5, 1.0]) if size else 0
+    if force in ("perm", "vals"):
+        fail_p = 0
     jobs = gen_jobs(rng, size, fail_p, list(range(40)))
+    if force == "fail" and cyc:
+        jobs[rng.randrange(size)] = [cyc.exc(), 3]
+    if force == "vals" and cyc:
+        for pos in rng.sample(range(size), 2):
+            u = cyc.unusual()
+            jobs[pos] = [u + 1 if u % N_UNUSUAL == 4 else u, 2]     # not None: a ResultBuilder slot shows None for "missing"
     takes = []
     style = rng.choice(["round", "one-worker", "random", "random", "random"])
     for i in range(size + rng.choice([0, 0, 1, nw, nw + 2])):
@@ -179,7 +343,20 @@ def gen_jobs_case(rng, thorough):
         else:
             takes.append(rng.randrange(nw))
     sched = interleave_polls(rng, [["T", w] for w in takes], nw, rng.choice(["late-main", "eager-main", "mixed", "mixed"]))
-    return {"kind": "jobs", "cores": cores, "jobs": jobs, "sched": sched}
+    c = {"kind": "jobs", "cores": cores, "jobs": jobs, "sched": sched}
+    if size >= 2 and (force == "perm" or rng.random() < 0.3):
+        # the k-th job of the queue is NOT job number k: reversed, rotated or shuffled numbers (0 never first)
+        nums = list(range(size))
+        style = rng.choice(["reversed", "rotated", "shuffled"])
+        if style == "reversed":
+            nums.reverse()
+        elif style == "rotated":
+            nums = nums[1:] + nums[:1]
+        else:
+            while nums[0] == 0:
+                rng.shuffle(nums)
+        c["nums"] = nums
+    return c
 
 
 def gen_caller(rng, kind):
@@ -213,10 +390,11 @@ def gen_caller(rng, kind):
     return c
 
 
-def gen_sneakier(rng):
-    order = rng.choice(["single", "sequential", "sequential", "constructed-first"])
-    k = 1 if order == "single" else 2
-    pools = [{"mul": m, "xs": rng.sample(range(1, 50), rng.randint(1, 5))} for m in rng.sample([2, 3, 5, 7, 100], k)]
+def gen_sneakier(rng, order=None):
+    order = order or rng.choice(["single", "sequential", "sequential", "constructed-first"])
+    k = 1 if order in ("single", "two-maps", "reenter") else 2
+    pools = [{"mul": m, "xs": rng.sample(range(0, 50), rng.randint(1, 5)), "xs2": rng.sample(range(0, 50), rng.randint(1, 4))}
+             for m in rng.sample([2, 3, 5, 7, 100], k)]
     return {"kind": "sneakier", "procs": rng.choice([1, 2, 3]), "order": order, "pools": pools}
 
 
@@ -264,6 +442,24 @@ FIXED_CASES = [
     # two SneakierPools constructed before the first is used
     {"kind": "sneakier", "procs": 2, "order": "constructed-first", "pools": [{"mul": 3, "xs": [1, 2, 3]}, {"mul": 100, "xs": [1, 2]}]},
     {"kind": "smap_free", "procs": 3, "batches": [{"jobs": [[5, 0, 3], [6, 0, 0], [7, 0, 1], [8, 0, 0]], "big": True}]},
+    # hardening sweep: falsy / None results between ordinary ones; a falsy exception object; numbers out of queue order
+    {"kind": "smap", "procs": 2, "shape": "values", "batches": [
+        {"jobs": [[0, 2], [5, 0], [4, 2], [3, 2], [1, 2]], "sched": [["F", 1], ["F", 1], ["F", 0], ["F", 0], ["F", 0]]},
+        {"jobs": [[5, 3], [6, 0]], "sched": [["F", 1], ["F", 0]]},
+        {"jobs": [[7, 0], [8, 0]], "sched": [["F", 0], ["F", 1]]},
+        {"jobs": [[100, 0], [104, 0], [3, 0], [101, 0], [105, 0]], "scalar": True, "sched": [["F", 1], ["F", 1], ["F", 0], ["F", 0], ["F", 0]]}]},
+    # kinds of callables: the dynesty-wrapped prior transform is NOT the likelihood (as function and as argument)
+    {"kind": "smap", "procs": 2, "shape": "callables", "batches": [
+        {"jobs": [[5, 0], [6, 0], [7, 0]], "fkind": "dynesty_pt", "sched": [["F", 1], ["F", 0], ["F", 0]]},
+        {"jobs": [[5, 0], [6, 0]], "fkind": "dynesty_ll", "sched": [["F", 1], ["F", 0]]},
+        {"jobs": [[8, 0], [9, 0]], "akind": "arg_dynesty_pt", "apos": 1, "sched": [["F", 1], ["F", 0]]},
+        {"jobs": [[8, 0], [9, 1], [4, 0]], "akind": "dynesty_ll", "apos": 3, "sched": [["F", 0], ["F", 1], ["F", 0]]}]},
+    {"kind": "jobs", "cores": 3, "jobs": [[1, 0], [2, 0], [3, 0]], "nums": [2, 0, 1], "sched": [["T", 1], ["T", 0], ["P"], ["T", 1], ["P"]]},
+    {"kind": "jobs", "cores": 3, "jobs": [[1, 0], [5, 3], [0, 2]], "sched": [["T", 1], ["T", 0], ["P"], ["T", 1], ["P"]]},
+    {"kind": "numbering", "specs": [None, 0, "sneaky", 0, 3, None, 1]},
+    {"kind": "jobs_seq", "calls": [
+        {"cores": 3, "jobs": [[1, 0], [2, 3], [3, 0]], "sched": [["T", 1], ["T", 0], ["P"], ["T", 1]], "draw": 2},
+        {"cores": 2, "jobs": [[4, 0], [5, 0]], "nums": [1, 0], "sched": [["T", 0], ["T", 0]], "draw": 3}]},
 ]
 
 
@@ -273,9 +469,17 @@ def gen_cases(ctx):
     k = 5 if thorough else 1
     cases = [json.loads(json.dumps(c)) for c in FIXED_CASES]
     cases += [gen_smap(rng, thorough) for _ in range(80 * k)]
-    cases += [gen_init(rng, thorough) for _ in range(36 * k)]
+    cyc = Cycle(rng)
+    k2, k = k, (2 if thorough else 1)       # the sweep's shapes cover their kinds by construction: thorough doubles them only
+    cases += [gen_smap_vals(rng, cyc) for _ in range(12 * k)]      # >= 12 unusual values... per run; Cycle covers all of them
+    cases += [gen_smap_kinds(rng, j) for j in range(8 * k)]          # 8 function kinds x 2, 6 argument kinds: all in every run
+    cases += [gen_jobs_seq(rng, cyc) for _ in range(6 * k)]
+    cases += [gen_numbering(rng) for _ in range(5 * k)]
+    cases += [gen_sneakier(rng, "two-maps"), gen_sneakier(rng, "reenter")]
+    k = k2
+    cases += [gen_init(rng, thorough, again=(j % 6 == 5), unusual=(j % 3 == 1)) for j in range(36 * k)]
     cases += [gen_emcee(rng) for _ in range(10 * k)]
-    cases += [gen_jobs_case(rng, thorough) for _ in range(50 * k)]
+    cases += [gen_jobs_case(rng, thorough, cyc, force=[None, None, None, "perm", "vals", "fail"][j % 6]) for j in range(50 * k)]
     cases += [gen_smap_free(rng) for _ in range(6 * k)]
     cases += [gen_jobs_free(rng) for _ in range(5 * k)]
     cases += [gen_caller(rng, "grid_fit") for _ in range(8 * k)]
@@ -301,7 +505,7 @@ def oracle_batch(procs, serial, b, free=False):
     hard = []
     oks = [v for k, v in serial if k == "ok"]
     excs = [v for k, v in serial if k == "exc"]
-    if sorted(b["yields"]) != sorted(oks):
+    if sorted(b["yields"], key=repr) != sorted(oks, key=repr):
         hard.append("map yielded %s, the serial results are %s" % (b["yields"], oks))
     if any(e != 1 for e in b["evals"]):
         hard.append("evaluation counts per input %s (each input must be evaluated exactly once)" % b["evals"])
@@ -317,6 +521,26 @@ def oracle_batch(procs, serial, b, free=False):
     if not hard and b["yields"] != oks:
         order = "map yielded %s for serial results %s (results are not matched to inputs by position)" % (b["yields"], oks)
     return hard, order
+
+
+SNEAKIER_REENTER_CLASS = "sneakier-reentered-after-exit"
+
+
+def oracle_numbering(specs, r):
+    """AbstractJob numbering: an explicit number (0 too) is kept; jobs without one draw consecutive values of the counter;
+    explicit numbers leave the counter alone"""
+    out = []
+    nxt = r["before"]
+    for sp, got in zip(specs, r["numbers"]):
+        if sp is None or sp == "sneaky":
+            if got != nxt:
+                out.append(("a job built without a number got %s, the class-level counter stood at %s" % (got, nxt), []))
+            nxt += 1
+        elif got != sp:
+            out.append(("a job built with number=%s carries number %s (counter at %s; specs %s -> %s)" % (sp, got, nxt, specs, r["numbers"]), []))
+    if r["after"] != nxt or len(r["numbers"]) != len(specs):
+        out.append(("job counter went from %s to %s over the constructions %s" % (r["before"], r["after"], specs), []))
+    return out
 
 
 def oracle(c, r):
@@ -345,6 +569,12 @@ def oracle(c, r):
             out.append(("evaluation counts %s" % r["evals"], []))
         if any(r["pend"]) or any(r["resq"]):
             out.append(("left behind: %s %s" % (r["pend"], r["resq"]), []))
+        return out
+    if k == "init" and c.get("again") and "again" in r:
+        out = oracle({kk: v for kk, v in c.items() if kk != "again"}, r)
+        out += [("second samples_from_model call on the same initializer object: " + m, cl) for m, cl in oracle(dict(c["again"], kind="init"), r["again"])]
+        if r["again"].get("pools") != 1:
+            out.append(("the second call created %s pools of its own (a fresh SneakyPool per call)" % r["again"].get("pools"), []))
         return out
     if k == "init":
         stream = c["stream"]
@@ -381,6 +611,22 @@ def oracle(c, r):
     if k == "smap_twofit":
         if not r["raised"] or r["raised"][0] != "AssertionError" or r["yields"] or any(r["evals"]) or any(r["pend"]) or any(r["resq"]):
             out.append(("two fitness arguments: expected AssertionError before anything is queued, got %s" % r, []))
+        return out
+    if k == "numbering":
+        return oracle_numbering(c["specs"], r)
+    if k == "jobs_seq":
+        for j, (call, rr) in enumerate(zip(c["calls"], r["calls"])):
+            out += [("call %d of the history: %s" % (j, m), cl) for m, cl in oracle(dict(call, kind="jobs"), rr)]
+            if rr.get("children_left"):
+                out.append(("call %d of the history left %d live worker processes behind" % (j, rr["children_left"]), []))
+        return out
+    if k == "sneakier" and c["order"] in ("two-maps", "reenter"):
+        sp = c["pools"][0]
+        exp = [["ok", [sp["mul"] * x + 1 for x in xs]] for xs in (sp["xs"], sp["xs2"])]
+        if r["results"] != exp:
+            cls = [SNEAKIER_REENTER_CLASS] if c["order"] == "reenter" else []
+            out.append(("one SneakierPool(fitness = %d*x+1) used twice (%s): maps over %s and %s gave %s, serial evaluation gives %s" % (
+                sp["mul"], c["order"], sp["xs"], sp["xs2"], r["results"], exp), cls))
         return out
     if k == "sneakier":
         for sp, res in zip(c["pools"], r["results"]):
@@ -441,15 +687,22 @@ def oracle(c, r):
         return out
     if k in ("jobs", "jobs_free"):
         serial = r["serial"]
-        exp = [["exc", x] if m == 1 else ["ok", i, fval(x)] for i, (x, m, *_) in enumerate(c["jobs"])]
+        nums = c.get("nums") or list(range(len(c["jobs"])))
+        exp = []
+        for i, (x, m, *_) in enumerate(c["jobs"]):
+            kd, v = value_of(x, m)
+            exp.append(["exc", v] if kd == "exc" else ["ok", nums[i], v])
         if serial != exp:
             out.append(("serial evaluation gives %s, expected %s" % (serial, exp), []))
+        if "numbering" in r:
+            out += oracle_numbering(nums, r["numbering"])
+        bynum = sorted([s_ for s_ in serial if s_[0] == "ok"], key=lambda s_: s_[1])
         items = r["items"]
         nums = [it[1] for it in items if it[0] == "ok"]
         if len(set(nums)) != len(nums):
             out.append(("a job number was delivered twice: %s" % nums, []))
         for it in items:
-            if it[0] == "ok" and (it[1] >= len(serial) or serial[it[1]] != it):
+            if it[0] == "ok" and it not in serial:
                 out.append(("delivered result %s is not the serial result of job %s" % (it, it[1]), []))
         excs = [s[1] for s in serial if s[0] == "exc"]
         if any(e > 1 for e in r["evals"]):
@@ -459,17 +712,17 @@ def oracle(c, r):
                 out.append(("no job raised but run_jobs reported %s" % (r["raised"],), []))
             if sorted(map(json.dumps, items)) != sorted(map(json.dumps, serial)):
                 out.append(("run_jobs delivered %s, serial results %s" % (items, serial), []))
-            if r["summaries"] != [s[2] for s in serial]:
-                out.append(("ResultBuilder order %s, serial %s" % (r["summaries"], [s[2] for s in serial]), []))
-            if r["sorted"] != [[s[1], s[2]] for s in serial]:
-                out.append(("sorted results %s, serial %s" % (r["sorted"], serial), []))
+            if r["summaries"] != [s[2] for s in bynum]:
+                out.append(("ResultBuilder slots %s, serial results by job number %s" % (r["summaries"], [s[2] for s in bynum]), []))
+            if r["sorted"] != [[s[1], s[2]] for s in bynum]:
+                out.append(("sorted results %s, serial results by job number %s" % (r["sorted"], bynum), []))
             if any(e != 1 for e in r["evals"]):
                 out.append(("evaluation counts %s" % r["evals"], []))
         else:
             if not r["raised"] or r["raised"][0] != "AssertionError" or r["raised"][1] not in excs:
                 out.append(("jobs raised %s but run_jobs reported %s" % (excs, r["raised"]), []))
             for kk, s in enumerate(r["summaries"]):
-                if s is not None and serial[kk] != ["ok", kk, s]:
+                if s is not None and ["ok", kk, s] not in serial:
                     out.append(("ResultBuilder slot %d holds %s" % (kk, s), []))
         return out
     return [("unknown kind", [])]
@@ -495,11 +748,16 @@ def c_nats(l):
     return clist([cnat(x) for x in l])
 
 
+def zz(v):
+    """a reported value as Z; anything that is not one of the expected codes becomes a value no model state holds"""
+    return cZ(v if isinstance(v, int) and not isinstance(v, bool) else -999999)
+
+
 def c_obs(b):
     raised = None
     if b["raised"]:
         raised = b["raised"][1] if b["raised"][0] == "WorkError" and isinstance(b["raised"][1], int) else -1
-    return "(BO %s %s %s %s %s true)" % (clist([cZ(y) for y in b["yields"]]), copt(raised, cZ), c_nats(b["pend"]),
+    return "(BO %s %s %s %s %s true)" % (clist([zz(y) for y in b["yields"]]), copt(raised, cZ), c_nats(b["pend"]),
                                          c_nats(b["resq"]), c_nats(b["evals"]))
 
 
@@ -509,6 +767,13 @@ def point_outcome(kd, v):
     if kd == "err":
         return "(Exc %s)" % cZ(v)
     return "(Ok None)"
+
+
+def c_numbers(specs, r):
+    sp = clist(["None" if x is None or x == "sneaky" else "(Some %s)" % cnat(x) for x in specs])
+    if r["before"] < 0 or r["after"] < 0 or any(not isinstance(n, int) or n < 0 for n in r["numbers"]):
+        return "CNumbers 0 [] [1] 0"
+    return "CNumbers %s %s %s %s" % (cnat(r["before"]), sp, c_nats(r["numbers"]), cnat(r["after"]))
 
 
 def coq_case(c, r):
@@ -523,6 +788,8 @@ def coq_case(c, r):
         b = {"yields": r["log_prob"], "raised": None, "pend": r["pend"], "resq": r["resq"],
              "evals": [r["evals"][i] for i in c["order"]]}
         return "CSmap %s %s %s %s" % (fx, cnat(c["procs"]), clist([cpair(outs, c_sched(c["sched"]))]), clist([c_obs(b)]))
+    if k == "init" and c.get("again") and "again" in r:
+        return [coq_case({kk: v for kk, v in c.items() if kk != "again"}, r), coq_case(dict(c["again"], kind="init"), r["again"])]
     if k == "init":
         stream = clist([cpair(cZ(i), point_outcome(kd, v)) for i, (kd, v) in enumerate(c["stream"])])
         scheds = clist([c_sched(s) for s in c["scheds"]])
@@ -550,12 +817,48 @@ def coq_case(c, r):
             final = par.get("lls", [])
         return "CCaller %s %s %s %s %s %s %s" % (cbool(k == "sens_fit"), cnat(c["cores"] - 1), outs, c_jsched(c["sched"]), raised,
                                                 c_nats(stored), clist([copt(v, cZ) for v in final]))
+    if k == "numbering":
+        return c_numbers(c["specs"], r)
+    if k == "jobs_seq":
+        terms = []
+        for call, rr in zip(c["calls"], r["calls"]):
+            one = coq_case(dict(call, kind="jobs"), rr)
+            terms += [one] if isinstance(one, str) else one
+            terms.append(c_numbers([None] * len(rr["drawn"]), {"before": rr["numbering"]["before"] - len(rr["drawn"]),
+                                                                  "numbers": rr["drawn"], "after": rr["numbering"]["before"]}))
+        return terms
+    if k == "sneakier":
+        ops, res = [], []
+        if c["order"] in ("two-maps", "reenter"):
+            sp = c["pools"][0]
+            ops = ["(SConstruct 0 %s)" % cZ(sp["mul"]), "(SEnter 0)", "(SMap %s)" % clist([cZ(x) for x in sp["xs"]])]
+            ops += (["SExit", "(SEnter 0)"] if c["order"] == "reenter" else []) + ["(SMap %s)" % clist([cZ(x) for x in sp["xs2"]]), "SExit"]
+        elif c["order"] == "constructed-first":
+            ops = ["(SConstruct %d %s)" % (i, cZ(sp["mul"])) for i, sp in enumerate(c["pools"])]
+            for i, sp in enumerate(c["pools"]):
+                ops += ["(SEnter %d)" % i, "(SMap %s)" % clist([cZ(x) for x in sp["xs"]]), "SExit"]
+        else:
+            for i, sp in enumerate(c["pools"]):
+                ops += ["(SConstruct %d %s)" % (i, cZ(sp["mul"])), "(SEnter %d)" % i, "(SMap %s)" % clist([cZ(x) for x in sp["xs"]]), "SExit"]
+        for x in r["results"]:
+            res.append(copt(x[1] if x[0] == "ok" else None, lambda l: clist([cZ(v) for v in l])))
+        return "CSneakier %s %s" % (clist(ops), clist(res))
     if k == "jobs":
-        outs = clist([c_out("exc" if m == 1 else "ok", x if m == 1 else fval(x)) for x, m in c["jobs"]])
-        items = clist([cpair("(Some %s)" % cnat(it[1]), cZ(it[2])) if it[0] == "ok" else cpair("None", cZ(it[1])) for it in r["items"]])
+        nums = c.get("nums") or list(range(len(c["jobs"])))
+        outs = clist([c_out(*value_of(x, m)) for x, m in c["jobs"]])
+        items = clist([cpair("(Some %s)" % cnat(it[1]), zz(it[2])) if it[0] == "ok" else cpair("None", zz(it[1])) for it in r["items"]])
         raised = None
         if r["raised"]:
             raised = r["raised"][1] if r["raised"][0] == "AssertionError" and isinstance(r["raised"][1], int) else -1
+        if any(it[0] == "ok" and not isinstance(it[2], int) for it in r["items"]) or any(isinstance(s_, str) for s_ in r["summaries"]):
+            return "CNumbers 0 [] [1] 0"        # a value came back changed (the oracle says which): no model state matches
+        terms = ["CJobsN %s %s %s %s %s %s %s %s %s" % (
+            cnat(c["cores"] - 1), c_nats(nums), outs, c_jsched(c["sched"]), items, copt(raised, cZ),
+            clist([copt(s, cZ) for s in r["summaries"]]), clist([cpair(cnat(a), cZ(b)) for a, b in r["sorted"]]),
+            c_nats(r["evals"]))]
+        if "numbering" in r:
+            terms.append(c_numbers(nums, r["numbering"]))
+        return terms
         return "CJobs %s %s %s %s %s %s %s %s" % (
             cnat(c["cores"] - 1), outs, c_jsched(c["sched"]), items, copt(raised, cZ),
             clist([copt(s, cZ) for s in r["summaries"]]), clist([cpair(cnat(a), cZ(b)) for a, b in r["sorted"]]),
@@ -579,8 +882,10 @@ def nontrivial(c):
         return c["cores"] >= 3
     if k == "sneakier":
         return c["procs"] >= 2
-    if k in ("emcee_run", "pickle_walk"):
+    if k in ("emcee_run", "pickle_walk", "numbering"):
         return True
+    if k == "jobs_seq":
+        return any(x["cores"] >= 3 and len(x["jobs"]) >= 2 for x in c["calls"])
     return False
 
 
@@ -593,8 +898,10 @@ def describe(c):
         return {"kind": k, "n": c["n"], "total": c["total"], "stream": len(c["stream"])}
     if k == "emcee":
         return {"kind": k, "procs": c["procs"], "walkers": len(c["vals"])}
-    if k in ("jobs_race", "smap_twofit", "emcee_run", "pickle_walk"):
+    if k in ("jobs_race", "smap_twofit", "emcee_run", "pickle_walk", "numbering"):
         return dict(c)
+    if k == "jobs_seq":
+        return {"kind": k, "cores": max(x["cores"] for x in c["calls"]), "calls": [[x["cores"], len(x["jobs"]), bool(x.get("nums"))] for x in c["calls"]]}
     if k in ("grid_fit", "sens_fit"):
         return {"kind": k, "cores": c["cores"], "n": c["n"], "grid": c.get("grid"), "failing_cells": c["fail"]}
     if k == "sneakier":
@@ -640,7 +947,16 @@ def run(ctx):
                 "included; (*_free, emcee_run, jobs_race, sneakier) the same entry points and SneakierPool free-running under the OS "
                 "scheduler (sleeps, 1.2 MB results), oracle only. A case is non-trivial when at least two workers and two jobs are "
                 "involved; distinct = distinct abstract program, where programs of the ordered blocking map that differ only in "
-                "their P actions (no-ops there) count once")
+                "their P actions (no-ops there) count once. Hardening sweep (every seed, by construction; distributions in the "
+                "histograms): (values) 12 histories of three maps on one pool -- results that are falsy / None / numpy scalars / 0-d "
+                "and 1-element arrays / nan / -0.0 (20 kinds, all covered), user exceptions of 8 kinds (no args, falsy object, "
+                "carrying `number`/`result`, ZeroDivisionError ...) followed by a clean batch, plain scalar arguments of 12 kinds "
+                "(0, 0.0, -0.0, False, None, numpy scalars); (jobs) every 6th case with job numbers that are not the queue order, "
+                "with unusual results, with an unusual exception; (jobs_seq) histories of 2-3 run_jobs calls in one process with "
+                "unnumbered jobs built in between; (numbering) histories of job constructions with an explicit 0 after the "
+                "class-level counter has moved; (init) every 3rd case with figures of merit 0 and negative, every 6th case ONE "
+                "initializer object used for two calls with another fitness / n_cores / total; (sneakier) one pool with two maps in "
+                "one with-block, one pool entered twice")
     ctx.trusted = [
         "Coq 8.16.1 kernel incl. vm_compute",
         "correspondence harness c14.py / impl/c14_impl.py: schedule steering by per-worker semaphore gates (inside the evaluated "
@@ -666,6 +982,12 @@ def run(ctx):
         "which exception a map with several failing inputs raises: the LAST failing input's (model, theorem and oracle agree); "
         "serial evaluation would stop at the first",
     ]
+    ctx.assumptions.append(
+        "hardening sweep, outside the quantifier (not generated): public attributes of the fitness object changed between two maps "
+        "of one SneakyPool (the workers hold the copy forked at construction: by design, every in-tree caller builds the pool per "
+        "fit); a second GridSearch.fit / Sensitivity.run on the same object (resume of completed fits: C06/C16); arguments that are "
+        "strings or 0-d arrays (SneakyJob hands the function list(args), serial evaluation would see the original container); "
+        "priors / ids (class 4) do not occur in the anchored code -- the analogue, job NUMBER vs queue POSITION, is generated")
     ctx.notes["map_model"] = "fixed" if MAP_FIXED else "current (completion order)"
     import time as _t
     _t0 = _t.time()
@@ -707,6 +1029,38 @@ def run(ctx):
         if c["kind"] == "jobs_race" and "ok" in r:
             ctx.notes.setdefault("jobs_race", []).append({"case": d, "hangs": r["ok"]["hangs"], "calls": r["ok"]["calls"],
                                                           "calls_leaving_a_worker_blocked_in_get": r["ok"].get("stuck")})
+        for call in ([c] if c["kind"] == "jobs" else c["calls"] if c["kind"] == "jobs_seq" else []):
+            ctx.hist("job_numbering", "queue order" if not call.get("nums") else "0 first" if call["nums"][0] == 0 else "permuted")
+            for x, m in call["jobs"]:
+                if m == 2:
+                    ctx.hist("unusual_result(run_jobs)", x % N_UNUSUAL)
+                if m == 3:
+                    ctx.hist("exception_kind(run_jobs)", x % N_EXC)
+        if c["kind"] == "init":
+            ctx.hist("initializer_history", "one object, two calls (n %d -> %d)" % (c["n"], c["again"]["n"]) if c.get("again") else "single call")
+            if any(kd == "ok" and v <= 0 for kd, v in c["stream"]):
+                ctx.hist("initializer_values", "zero" if ["ok", 0] in c["stream"] else "negative")
+        if c["kind"] == "jobs_seq":
+            ctx.hist("run_jobs_history", "%d calls, workers %s" % (len(c["calls"]), [x["cores"] - 1 for x in c["calls"]]))
+        if c["kind"] == "numbering":
+            ctx.hist("numbering_history", "explicit-0-after-%d-draws" % len([x for x in c["specs"][:c["specs"].index(0)] if x in (None, "sneaky")]))
+        if c["kind"] == "sneakier":
+            ctx.hist("sneakier_history", c["order"])
+        if c["kind"] == "smap":
+            for bi, b in enumerate(c["batches"]):
+                for x, m in b["jobs"]:
+                    if m == 2:
+                        ctx.hist("unusual_result(map)", x % N_UNUSUAL)
+                    if m == 3:
+                        ctx.hist("exception_kind(map)", x % N_EXC)
+                    if b.get("scalar") and x >= 100:
+                        ctx.hist("scalar_argument_kind", x - 100)
+                if b.get("fkind"):
+                    ctx.hist("mapped_callable_kind", b["fkind"])
+                if b.get("akind"):
+                    ctx.hist("callable_argument_kind", "%s@%d" % (b["akind"], b["apos"]))
+                if bi and any(j[1] in (1, 3) for j in c["batches"][bi - 1]["jobs"]) and not any(j[1] in (1, 3) for j in b["jobs"]):
+                    ctx.hist("map_history", "clean batch after a failed one")
         if c["kind"] in ("smap", "smap_free"):
             for b in c["batches"]:
                 ctx.hist("batch_size", len(b["jobs"]))
@@ -730,8 +1084,8 @@ def run(ctx):
                 hard = True
         fails[i] = bool(msgs)
         cc = coq_case(c, r["ok"])
-        if cc:
-            coq_cases.append(cc)
+        for term in ([cc] if isinstance(cc, str) else cc or []):
+            coq_cases.append(term)
             coq_idx.append(i)
         if i % 29 == 0:
             ctx.sample({"case": d}, limit=10)
@@ -775,11 +1129,18 @@ MANIFEST = {
             "serial order; the initializer returns the valid points of a stream prefix with their own values for any number of "
             "cores. vm_compute correspondence of the model with the real pools and with the real GridSearch.fit / Sensitivity.run "
             "under deterministically steered schedules, plus a direct property oracle (also free-running: emcee sampling, 1.2 MB "
-            "results, run_jobs stress, SneakierPool). The behaviour before the two repairs is kept as refuted statements.",
+            "results, run_jobs stress, SneakierPool). The behaviour before the two repairs is kept as refuted statements. "
+            "Hardening sweep: run_jobs on jobs queued in any order of their numbers gives ResultBuilder / sorted results in number "
+            "order (C14_jobs_keyed_any_numbering); explicit job numbers do not depend on the class-level job counter "
+            "(C14_numbering_history_free, slip `number or next` refuted); SneakierPool's class-global FunctionCache as a state "
+            "machine with an explicit cache policy: install-at-enter right for every history, the code's policy right for "
+            "in-tree uses only and refuted for two pools / a re-entered pool; generator: unusual results (20 kinds), user "
+            "exception kinds (8), scalar argument kinds (12), histories of maps / run_jobs calls / initializer calls / job "
+            "constructions, all in every quick run.",
     "note": "Trusted: Coq kernel + vm_compute, the steering harness (semaphore gates, proxies around the parent-side queues; code "
             "under test unmodified), FIFO/no-loss semantics of multiprocessing.Queue. Schedules are atomic interleavings; worker "
-            "death, abandoned generators and MPI pools are out of scope (stated in the evidence). Known finding: "
-            "sneakier-two-pools-constructed; fixed in /repo and pinned by regression obligations: sneaky-map-completion-order "
+            "death, abandoned generators and MPI pools are out of scope (stated in the evidence). Known findings: "
+            "sneakier-two-pools-constructed, sneakier-reentered-after-exit (one proposed fix for both); fixed in /repo and pinned by regression obligations: sneaky-map-completion-order "
             "(c80ac95), run-jobs-startup-race (67a753d), grid-parallel-failing-cell (74ff428), job-pickling-race (e882fb2).",
     "technique": "machine-checked proof in Coq (schedule-quantified transition systems) + vm_compute correspondence under steered schedules",
 }
